@@ -165,6 +165,74 @@ pub fn client_scenario(r: &mut Rng, rounds: usize) -> (usize, bool, bool) {
     (delivered, panicked, alive)
 }
 
+/// well-formed but hostile answers to the node's own lookups: every responder claims an id that shares its
+/// first 8..19 bytes with the target (the size estimate derived from such answers is astronomically large
+/// and saturates the integer it is kept in), hands out a token and lists some nodes; then more lookups of
+/// every kind, a put, and the liveness probe
+pub fn sybil_scenario(r: &mut Rng, rounds: usize) -> (usize, bool, bool) {
+    let n = 3;
+    let server = r.chance(1, 2);
+    let mut s = Scn::new(r, n, server, Default::default());
+    let mut delivered = 0;
+    for round in 0..rounds {
+        let target = dht::Id::random();
+        let kind = [1u8, 2, 3, 0][round % 4];
+        let (tx, _rx) = flume::unbounded();
+        // the API call itself must not panic either
+        if catch_unwind(AssertUnwindSafe(|| s.node.actor.verif_get(crate::c20::request_of(kind, target), ResponseSender::ClosestNodes(tx)))).is_err() {
+            return (delivered, true, false);
+        }
+        let share = 8 + r.below(12) as usize;
+        for _ in 0..40 {
+            let mut cnt = 0;
+            let mut rr = r.fork();
+            let p = tick_caught(&mut s, &mut |s, inc| {
+                let req = match as_request(&inc.msg) {
+                    Some(q) => q,
+                    None => return Reply::Silent,
+                };
+                if matches!(req.request_type, RequestTypeSpecific::Ping | RequestTypeSpecific::Put(_)) {
+                    return s.honest(inc);
+                }
+                cnt += 1;
+                let mut id = *target.as_bytes();
+                for b in id.iter_mut().skip(share) {
+                    *b = rr.byte();
+                }
+                let responder_id = dht::Id::from(id);
+                let nodes: Box<[dht::Node]> = s.all_nodes().into();
+                match req.request_type {
+                    RequestTypeSpecific::FindNode(_) => Reply::Msg(MessageType::Response(ResponseSpecific::FindNode(FindNodeResponseArguments { responder_id, nodes }))),
+                    _ => Reply::Msg(MessageType::Response(ResponseSpecific::NoValues(NoValuesResponseArguments { responder_id, token: vec![7, 7].into(), nodes: Some(nodes) }))),
+                }
+            });
+            delivered += cnt;
+            if p {
+                return (delivered, true, false);
+            }
+            if s.snap().iterative_queries == 0 {
+                break;
+            }
+        }
+    }
+    // liveness: a ping is answered (server mode) / a lookup still completes (client mode)
+    let (tx, rx) = flume::unbounded();
+    if catch_unwind(AssertUnwindSafe(|| s.node.actor.verif_get(crate::c20::request_of(0, dht::Id::random()), ResponseSender::ClosestNodes(tx)))).is_err() {
+        return (delivered, true, false);
+    }
+    let mut alive = false;
+    for _ in 0..60 {
+        if tick_caught(&mut s, &mut |s, inc| s.honest(inc)) {
+            return (delivered, true, false);
+        }
+        if rx.try_recv().is_ok() {
+            alive = true;
+            break;
+        }
+    }
+    (delivered, false, alive)
+}
+
 pub fn generate(r: &mut Rng, scale: usize) -> Vec<(String, String)> {
     let mut out = Vec::new();
     for i in 0..(3 * scale.max(1)) {
@@ -174,6 +242,10 @@ pub fn generate(r: &mut Rng, scale: usize) -> Vec<(String, String)> {
     for i in 0..(4 * scale.max(1)) {
         let (n, p, a) = client_scenario(r, 9);
         out.push(("node_client".to_string(), format!("KNode {} {} {} {}", 100 + i, n, crate::coqfmt::boolean(p), crate::coqfmt::boolean(a))));
+    }
+    for i in 0..(3 * scale.max(1)) {
+        let (n, p, a) = sybil_scenario(r, 6);
+        out.push(("node_sybil_answers".to_string(), format!("KNode {} {} {} {}", 200 + i, n, crate::coqfmt::boolean(p), crate::coqfmt::boolean(a))));
     }
     out
 }
